@@ -15,11 +15,12 @@ from zope.testrunner import runner as R
 from vt import loopback as LB
 from vt import runworld as RW
 from vt import world as W
-from vt.util import FakeGC, FakeTime, cb, ci, untraced
+from vt.util import FakeGC, FakeTime, cb, ci, install_fake_pdb, untraced
 
 R.time = FakeTime
 R.gc = FakeGC
 R.TestResult._exc_info_to_string = lambda self, err, test: 'traceback'
+install_fake_pdb()
 LAST = None
 NAMES = ['L0', 'L1', 'L2']
 
@@ -106,10 +107,11 @@ def pid_events(trace, pid, td_fault):
     return out
 
 
-def stack(e10, e20, e21, ht0, ht1, ht2, su0, su1, su2, td0, td1, td2, x, rep2, inst):
+def stack(e10, e20, e21, ht0, ht1, ht2, su0, su1, su2, td0, td1, td2, x, rep2, inst, pm=False):
     global LAST
     W.reset()
     e10, e20, e21, ht0, ht1, ht2, su0, su1, su2, x, rep2, inst = map(cb, (e10, e20, e21, ht0, ht1, ht2, su0, su1, su2, x, rep2, inst))
+    pm = cb(pm)
     td = [ci(t, 0, 2) for t in (td0, td1, td2)]
     su = [int(su0), int(su1), int(su2)]
     ht = [ht0, ht1, ht2]
@@ -120,7 +122,7 @@ def stack(e10, e20, e21, ht0, ht1, ht2, su0, su1, su2, td0, td1, td2, x, rep2, i
         for i in (2, 0, 1):        # discovery order differs from run order
             if ht[i]:
                 lt.append((layers[i], [W.mk_test('t%da' % i, W.PASS), W.mk_test('t%db' % i, W.FAIL if i == 1 else W.PASS)]))
-    o = RW.options((['-x'] if x else []) + (['--repeat', '2'] if rep2 else []))
+    o = RW.options((['-x'] if x else []) + (['--repeat', '2'] if rep2 else []) + (['-D'] if pm else []))
     r = RW.make_runner(o, lt)
     resumed = []
 
@@ -139,8 +141,8 @@ def stack(e10, e20, e21, ht0, ht1, ht2, su0, su1, su2, td0, td1, td2, x, rep2, i
         ev = pid_events(W.TRACE, 0, td_fault)
         why = check_pid(ev, anc, su_fault, set(NAMES))
         if why is None:
-            why = check_handover(ev, resumed, ht, anc, su_fault, x)
-    LAST = (e10, e20, e21, tuple(ht), tuple(su), tuple(td), x, rep2, inst, why, tuple(ev), tuple(resumed))
+            why = check_handover(ev, resumed, ht, anc, su_fault, x or pm)
+    LAST = (e10, e20, e21, tuple(ht), tuple(su), tuple(td), x, rep2, inst, why, tuple(ev), tuple(resumed), pm)
     return why is None
 
 
@@ -256,7 +258,7 @@ def stack_lb_reach(*a):
 
 _P = [('e10', 'bool'), ('e20', 'bool'), ('e21', 'bool'), ('ht0', 'bool'), ('ht1', 'bool'), ('ht2', 'bool'),
       ('su0', 'bool'), ('su1', 'bool'), ('su2', 'bool'), ('td0', 'int'), ('td1', 'int'), ('td2', 'int'),
-      ('x', 'bool'), ('rep2', 'bool'), ('inst', 'bool')]
+      ('x', 'bool'), ('rep2', 'bool'), ('inst', 'bool'), ('pm', 'bool')]
 _C = ', '.join(n for n, _ in _P)
 _B = '0 <= td0 <= 2 and 0 <= td1 <= 2 and 0 <= td2 <= 2 and (ht0 or ht1 or ht2)'
 _F1 = ' and su0 + su1 + su2 + (td0 != 0) + (td1 != 0) + (td2 != 0) <= 1'
@@ -268,7 +270,7 @@ _BL = '0 <= td0 <= 2 and 0 <= td1 <= 2 and 0 <= td2 <= 2 and (j == 0 or j == 2 o
 
 def _v(**kw):
     v = dict(e10=True, e20=False, e21=True, ht0=True, ht1=True, ht2=True, su0=False, su1=False, su2=False,
-             td0=0, td1=0, td2=0, x=False, rep2=False, inst=False)
+             td0=0, td1=0, td2=0, x=False, rep2=False, inst=False, pm=False)
     v.update(kw)
     return v
 
@@ -302,16 +304,16 @@ SPEC = {
               'evaluated untraced on concrete argv', 'runner.time / statistics.time / shuffle.time, runner.gc',
               'unittest.TestResult._exc_info_to_string -> constant'],
     'assumptions': ['every layer defines setUp and tearDown (a layer without hooks emits nothing observable)'],
-    'outside': ['real OS processes', 'MemoryError / KeyboardInterrupt from layer hooks', '-D', 'more than 3 layers'],
+    'outside': ['real OS processes', 'MemoryError / KeyboardInterrupt from layer hooks', '-D with a real debugger session (pdb is stubbed: the debugger returns at once)', 'more than 3 layers'],
     'harnesses': [
         {'name': 'stack', 'fn': 'stack', 'params': _P, 'call': _C,
-         'bounds': {'quick': _B + _F2 + ' and not inst and not (x and rep2)', 'thorough': _B + ' and su0 + su1 + su2 + (td0 != 0) + (td1 != 0) + (td2 != 0) <= 3'},
+         'bounds': {'quick': _B + _F2 + ' and not inst and not (x and rep2) and (not pm or (not x and not rep2))', 'thorough': _B + ' and su0 + su1 + su2 + (td0 != 0) + (td1 != 0) + (td2 != 0) <= 3 and (not pm or not x)'},
          'slices': {'quick': _edge_slices(('x', 'not x')),
                     'thorough': _edge_slices(('x and inst', 'x and not inst', 'not x and inst', 'not x and not inst'))},
          'reach': 'stack_reach', 'reach_bounds': {'quick': _B + _F1 + ' and not inst and not x and not rep2 and ht0 and ht1 and ht2',
                                                   'thorough': _B + _F1 + ' and not inst and not x and not rep2 and ht0 and ht1 and ht2'},
          'timeout': {'quick': 240, 'thorough': 850},
-         'fidelity': [_v(), _v(td1=2, e21=False), _v(su0=True, td2=1, x=True, inst=True), _v(e10=False, e20=True, td0=2, rep2=True)]},
+         'fidelity': [_v(), _v(td1=2, e21=False), _v(su0=True, td2=1, x=True, inst=True), _v(e10=False, e20=True, td0=2, rep2=True), _v(pm=True), _v(pm=True, su1=True, e21=False)]},
         {'name': 'stack_lb', 'fn': 'stack_lb', 'params': _PL, 'call': _CL,
          'bounds': {'quick': _BL + ' and su1 + (td0 != 0) + (td1 != 0) + (td2 != 0) <= 2',
                     'thorough': _BL},
